@@ -93,7 +93,9 @@ def cases(thorough):
     import itertools
 
     STEPS = ["np.add(a,r)", "np.maximum(a,r)", "np.concatenate([a,r])", "np.less(a,r)", "np.multiply(r,q,out=r)", "r*=q", "np.sqrt(r,out=r)",
-             "np.add(r,r,out=r)", "np.cumsum(a,out=r)", "np.multiply(r,2.0,out=r)"]
+             "np.add(r,r,out=r)", "np.cumsum(a,out=r)", "np.multiply(r,2.0,out=r)",
+             # calls that numpy or osyris must refuse: the destination keeps its values and its unit
+             "refused:np.multiply(r,q2,out=r)", "refused:np.add(r,t,out=r)", "refused:r*=q2"]
     for (u1, u2) in [("m", "km"), ("cm", "m"), ("g", "M_sun")]:
         for seq in itertools.product(STEPS, repeat=3):
             nmut = sum(1 for x in seq[:2] if "out=" in x or "*=" in x)
@@ -348,6 +350,25 @@ def run_sequence(acc, idx, c):
                 o = finish(acc, idx, c, lambda: np.add(r, r, out=r), PR + PR, dR, tol, False, False, (np.float64,), lab)
             elif st == "np.multiply(r,2.0,out=r)":
                 o = finish(acc, idx, c, lambda: np.multiply(r, 2.0, out=r), PR * 2.0, dR, tol, False, False, (np.float64,), lab)
+            elif st.startswith("refused:"):
+                q2 = osyris.Array(np.array([2.0, 2.0]), unit=c["u2"])  # wrong length: numpy refuses
+                t = osyris.Array(np.array([1.0, 1.0, 1.0]), unit="s")  # incompatible unit: osyris refuses
+                before = _arr.snapshot(r)
+                try:
+                    if st == "refused:np.multiply(r,q2,out=r)":
+                        np.multiply(r, q2, out=r)
+                    elif st == "refused:np.add(r,t,out=r)":
+                        np.add(r, t, out=r)
+                    else:
+                        r *= q2
+                    acc.violation(f"C10:invalid-call-not-refused:{lab}", idx, c, {"step": st})
+                    o = "accepted-invalid"
+                except Exception:
+                    o = "raises"
+                    if _arr.snapshot(r) != before:
+                        acc.violation("C10:refused-call-changed-its-destination:" + ("first-step" if k == 0 else "after-earlier-steps"), idx, c,
+                                      {"step": st, "unit_after": str(r.unit), "values_after": np.asarray(r.values).tolist()})
+                        o = "destination-corrupted"
             elif st == "np.cumsum(a,out=r)":
                 # the statement does not say which unit an array function gives its out= argument: values only
                 try:
